@@ -357,7 +357,8 @@ mod formatter {
         /// If we're in inline mode and the line is too long, backtrack to the
         /// outermost [`Formatter::try_inline`].
         fn backtrack_inline_if_long(&mut self) -> Result {
-            if self.inline_depth > 0 && self.line_buffer.len() > self.config.target_width {
+            // (a label is always written on one line, however long)
+            if self.inline_depth > 0 && !self.is_label && self.line_buffer.len() > self.config.target_width {
                 return Err(Error(ErrorKind::LineBreakRequired));
             }
             Ok(())
